@@ -2,69 +2,31 @@
 (* Trace validation for C11: events recorded by harness/.../domdrv from the  *)
 (* real loader and matcher are checked against DomainSet's declarative       *)
 (* semantics (Matches, Readable).                                            *)
-EXTENDS TraceBase, SequencesExt, FiniteSets
-
-\* the operational constants are irrelevant here (only Matches/Readable are used)
-Labels == {} 
-MaxDepth == 0
-MaxAdds == 0
-KeyMode == "exact"
-Subsume == TRUE
-VARIABLES trie, rootMatched, full, inserted, hist, nadds
-DS == INSTANCE DomainSet
+EXTENDS TraceBase, SequencesExt, FiniteSets, DomainLines, DomainOps
 
 VARIABLES l, E
-tvars == <<l, E, trie, rootMatched, full, inserted, hist, nadds>>
+tvars == <<l, E>>
 
 -----------------------------------------------------------------------------
-(* the loader's line syntax *)
-IsSpace(b) == b \in {32, 9, 11, 12, 13}
-RECURSIVE IndexFrom(_, _, _)
-IndexFrom(s, c, i) == IF i > Len(s) THEN 0 ELSE IF s[i] = c THEN i ELSE IndexFrom(s, c, i + 1)
-IndexOf(s, c) == IndexFrom(s, c, 1)
-CutAt(s, c) == LET i == IndexOf(s, c) IN IF i = 0 THEN s ELSE SubSeq(s, 1, i - 1)
-RECURSIVE TrimL(_)
-TrimL(s) == IF s # <<>> /\ IsSpace(Head(s)) THEN TrimL(Tail(s)) ELSE s
-RECURSIVE TrimR(_)
-TrimR(s) == IF s # <<>> /\ IsSpace(s[Len(s)]) THEN TrimR(SubSeq(s, 1, Len(s) - 1)) ELSE s
-Trim(s) == TrimR(TrimL(s))
-LowerB(b) == IF b >= 65 /\ b <= 90 THEN b + 32 ELSE b
-LowerS(s) == [i \in 1..Len(s) |-> LowerB(s[i])]
-RECURSIVE SplitDots(_)
-SplitDots(s) == LET i == IndexOf(s, 46) IN
-                IF i = 0 THEN <<LowerS(s)>> ELSE <<LowerS(SubSeq(s, 1, i - 1))>> \o SplitDots(SubSeq(s, i + 1, Len(s)))
-ParseName(exp) == LET e == IF exp # <<>> /\ exp[Len(exp)] = 46 THEN SubSeq(exp, 1, Len(exp) - 1) ELSE exp
-                  IN IF e = <<>> THEN <<>> ELSE SplitDots(e)
-
-sDomain == <<100, 111, 109, 97, 105, 110>>
-sFull   == <<102, 117, 108, 108>>
-sRegexp == <<114, 101, 103, 101, 120, 112>>
-
-RECURSIVE QuoteRe(_)
-QuoteRe(t) == IF t = <<>> THEN <<>>
-              ELSE (IF Head(t) \in {46, 92} THEN <<92, Head(t)>> ELSE <<Head(t)>>) \o QuoteRe(Tail(t))
-
 \* Entries(ev): the set of entries one loaded line contributes ({} for blank/comment lines)
 Body(ev) == Trim(CutAt(ev.line, 35))
-Typ(b) == LET i == IndexOf(b, 58) IN IF i = 0 THEN <<>> ELSE SubSeq(b, 1, i - 1)
-Exp(b) == LET i == IndexOf(b, 58) IN IF i = 0 THEN b ELSE SubSeq(b, i + 1, Len(b))
 Entries(ev) ==
     LET b == Body(ev) IN
     IF b = <<>> THEN {}
     ELSE IF Typ(b) \in {<<>>, sDomain} THEN {[kind |-> "domain", name |-> ParseName(Exp(b))]}
     ELSE IF Typ(b) = sFull THEN {[kind |-> "full", name |-> ParseName(Exp(b))]}
-    ELSE {[kind |-> "regexp", text |-> DS!Readable(ev.re)]}
+    ELSE {[kind |-> "regexp", text |-> Readable(ev.re)]}
 
 \* the harness's regexp lines must be the anchored literal of the spec's text form
 RegexpLineOk(ev) == LET b == Body(ev) IN
-    Typ(b) = sRegexp => Exp(b) = <<94>> \o QuoteRe(DS!Readable(ev.re)) \o <<36>>
+    Typ(b) = sRegexp => Exp(b) = <<94>> \o QuoteRe(Readable(ev.re)) \o <<36>>
+
 
 -----------------------------------------------------------------------------
-Init == /\ l = 1 /\ E = {} /\ InitMark
-        /\ trie = {} /\ rootMatched = FALSE /\ full = {} /\ inserted = {} /\ hist = <<>> /\ nadds = 0
+Init == l = 1 /\ E = {} /\ InitMark
 
 IsEvent(e) == l <= Len(Trace) /\ Trace[l].ev = e /\ l' = l + 1 /\ Mark(l)
-Rest == UNCHANGED <<trie, rootMatched, full, inserted, hist, nadds>>
+Rest == TRUE
 
 New == IsEvent("dm.new") /\ E' = {} /\ Rest
 
@@ -75,13 +37,13 @@ Add == /\ IsEvent("dm.add")
 
 Probe == /\ IsEvent("dm.probe")
          /\ LET ev == Trace[l]
-                wrong == {i \in 1..Len(ev.names) : ev.res[i] # DS!Matches(E, ev.names[i])}
+                wrong == {i \in 1..Len(ev.names) : ev.res[i] # Matches(E, ev.names[i])}
             IN Report(l, IF wrong = {} THEN {} ELSE {"Inv_C11_Equiv"})
          /\ UNCHANGED E /\ Rest
 
 ReadableEv == /\ IsEvent("dm.readable")
               /\ LET ev == Trace[l] IN
-                 Report(l, IF ~ev.err /\ ev.text = DS!Readable(ev.name) THEN {} ELSE {"Inv_C11_Readable"})
+                 Report(l, IF ~ev.err /\ ev.text = Readable(ev.name) THEN {} ELSE {"Inv_C11_Readable"})
               /\ UNCHANGED E /\ Rest
 
 \* dm.loaderr (the loader rejected or crashed on a well-formed file) has no action.
